@@ -47,6 +47,10 @@ type c11Case struct {
 	Sites      int         `json:"sites"`
 	SecondUsed bool        `json:"second_used"`          // the second deleted import is still used
 	PathStyle  string      `json:"path_style,omitempty"` // "" plain | gopkg (gopkg.in/yaml.v2 -> v3) | slashv (example.com/codec/v2 -> v3)
+	// FileCase: the file imports a path that differs from the subject path
+	// in the case of one letter (Sirupsen / sirupsen): another path, which
+	// the patch does not mention. Nothing applies.
+	FileCase bool `json:"file_case,omitempty"`
 }
 
 // c11Paths returns the subject path, the path that replaces it, and the
@@ -175,6 +179,10 @@ func c11Build(cs *c11Case) (patch, file string, ex c11Expect) {
 
 	// --- file ---
 	subject := c11Import{Name: cs.FileName, Path: c11Old}
+	if cs.FileCase {
+		i := strings.LastIndexAny(c11Old, "abcdefghijklmnopqrstuvwxyz")
+		subject.Path = c11Old[:i] + strings.ToUpper(c11Old[i:i+1]) + c11Old[i+1:]
+	}
 	specs := append([]c11Import{}, cs.Bystanders...)
 	pos := cs.SubjectPos
 	if pos > len(specs) {
@@ -274,7 +282,8 @@ func c11Build(cs *c11Case) (patch, file string, ex c11Expect) {
 	}
 
 	// --- expectations ---
-	ex.Applies = cs.Sites > 0
+	// (kind "add" does not mention the subject import: it applies anyway)
+	ex.Applies = cs.Sites > 0 && !(cs.FileCase && cs.Kind != "add")
 	if !ex.Applies {
 		// nothing matches: every import stays
 		for _, s := range specs {
@@ -469,6 +478,7 @@ func c11Draw(rt *rapid.T) *c11Case {
 		Sites:      rapid.IntRange(0, 3).Draw(rt, "sites"),
 		SecondUsed: rapid.Bool().Draw(rt, "secondUsed"),
 		PathStyle:  rapid.SampledFrom([]string{"", "", "", "gopkg", "slashv", "offname"}).Draw(rt, "pathStyle"),
+		FileCase:   rapid.IntRange(0, 11).Draw(rt, "fileCase") == 0,
 	}
 	if cs.PathStyle == "offname" {
 		if cs.NameForm == "unnamed" {
